@@ -118,11 +118,16 @@ def MVal.doubleValue_tolerance : MVal → D Float
 def MVal.stringValue_ : MVal → Option Bytes
   | .str s => s
   | _ => none
+/-- `pointerValue_` (`void*`) and `constPointerValue_` (`const void*`) are the same 8 bytes with pointee types that
+    differ in `const` only: a load through either member returns the stored address (`getConstPointerValue` does
+    read `pointerValue_`) -/
 def MVal.pointerValue_ : MVal → Nat
   | .ptr a => a
+  | .cptr a => a
   | _ => 0
 def MVal.constPointerValue_ : MVal → Nat
   | .cptr a => a
+  | .ptr a => a
   | _ => 0
 def MVal.functionPointerValue_ : MVal → Nat
   | .fptr a => a
@@ -208,5 +213,102 @@ def comparatorIsEqual (c : Option (Nat → Nat → Bool)) (o1 o2 : Nat) : Bool :
   match c with
   | some f => f o1 o2
   | none => false
+
+/-! ## rendering (`toString`): the `StringFrom` family of src/CppUTest/SimpleString.cpp
+
+Integer renderings are defined here as the textbook meaning of `%d/%u/%ld/%lu/%lld/%llu` (decimal, `-` for
+negative) and `%x/%lx/%llx` (lower-case hexadecimal, no leading zeros, of the value converted to the
+unsigned type of the SAME width) and checked against libc by the correspondence.  What only libc or the
+machine knows is an input (`Env`): the `%.6g` rendering of a finite double, the machine address of a
+pointer payload, the text a comparator's `valueToString` produces. -/
+
+/-- bytes of an ASCII literal (kernel-reducible, unlike `String.toUTF8`); the translator only emits it for ASCII
+    literals, type names are ASCII -/
+def ascii (s : String) : Bytes := s.toList.map fun c => UInt8.ofNat c.toNat
+
+/-- environment of one `toString()` call -/
+structure Env where
+  /-- `snprintf("%.*g", 6, value)` for this value's (finite) double -/
+  g6 : Bytes
+  /-- machine address of a pointer payload (pointer payloads are abstract identities in `MVal`) -/
+  addrOf : Nat → Nat
+  /-- `comparator_->valueToString(object)` -/
+  valueToString : Nat → Bytes
+
+/-- one digit, lower case -/
+def digitChar (d : Nat) : UInt8 := if d < 10 then UInt8.ofNat (48 + d) else UInt8.ofNat (87 + d)
+/-- positional digits of `n`, most significant first, no leading zeros (one digit for 0); `fuel` bounds the
+    number of digits (structural recursion, so the kernel can evaluate it) -/
+def natDigits (base : Nat) : Nat → Nat → Bytes → Bytes
+  | 0, _, acc => acc
+  | fuel + 1, n, acc =>
+    if n < base then digitChar n :: acc else natDigits base fuel (n / base) (digitChar (n % base) :: acc)
+/-- `%u` and friends -/
+def decNat (n : Nat) : Bytes := natDigits 10 (n + 1) n []
+/-- `%d` and friends -/
+def decInt (i : Int) : Bytes := if i < 0 then 45 :: decNat i.natAbs else decNat i.toNat
+/-- `%x` and friends: lower case, no leading zeros, "0" for zero -/
+def hexNat (n : Nat) : Bytes := natDigits 16 (n + 1) n []
+
+def StringFrom_bool (b : Bool) : Bytes := ascii (if b then "true" else "false")
+def StringFrom_int (v : BitVec 32) : Bytes := decInt v.toInt
+def StringFrom_uint (v : BitVec 32) : Bytes := decNat v.toNat
+def StringFrom_long (v : BitVec 64) : Bytes := decInt v.toInt
+def StringFrom_ulong (v : BitVec 64) : Bytes := decNat v.toNat
+def StringFrom_llong (v : BitVec 64) : Bytes := decInt v.toInt
+def StringFrom_ullong (v : BitVec 64) : Bytes := decNat v.toNat
+
+/-- `BracketsFormattedHexString(HexStringFrom(value))`: every `HexStringFrom` overload first converts to the
+    unsigned type of the same width, so the digits are those of the bit pattern -/
+def bracketsHex {w : Nat} (v : BitVec w) : Bytes := ascii "(0x" ++ hexNat v.toNat ++ ascii ")"
+def BracketsFormattedHexStringFrom_int (v : BitVec 32) : Bytes := bracketsHex v
+def BracketsFormattedHexStringFrom_uint (v : BitVec 32) : Bytes := bracketsHex v
+def BracketsFormattedHexStringFrom_long (v : BitVec 64) : Bytes := bracketsHex v
+def BracketsFormattedHexStringFrom_ulong (v : BitVec 64) : Bytes := bracketsHex v
+def BracketsFormattedHexStringFrom_llong (v : BitVec 64) : Bytes := bracketsHex v
+def BracketsFormattedHexStringFrom_ullong (v : BitVec 64) : Bytes := bracketsHex v
+
+/-- `StringFrom(const void*)`: "0x" + `%llx` of the address -/
+def StringFrom_constVoidPtr (env : Env) (a : Nat) : Bytes := ascii "0x" ++ hexNat (env.addrOf a)
+def StringFrom_fnPtr (env : Env) (a : Nat) : Bytes := ascii "0x" ++ hexNat (env.addrOf a)
+
+/-- `StringFrom(double, precision = 6)` -/
+def StringFrom_double (env : Env) : D Float → Bytes
+  | .nan => ascii "Nan - Not a number"
+  | .inf _ => ascii "Inf - Infinity"
+  | .fin _ => env.g6
+
+def hexDigitU (n : Nat) : UInt8 := if n < 10 then UInt8.ofNat (48 + n) else UInt8.ofNat (55 + n)
+/-- `%02X` of one byte -/
+def hex2U (b : UInt8) : Bytes := [hexDigitU (b.toNat / 16), hexDigitU (b.toNat % 16)]
+
+/-- the loop of `StringFromBinary`: `result += StringFromFormat("%02X ", value[i])` for the first `n` bytes -/
+def binaryLoop : Bytes → Nat → Bytes
+  | _, 0 => []
+  | [], _ + 1 => []                        -- fewer than n bytes: out-of-bounds read in C, not reached (n ≤ size)
+  | b :: bs, n + 1 => hex2U b ++ [32] ++ binaryLoop bs n
+
+/-- `StringFromBinary(value, size)`: the loop, then `subString(0, size() - 1)` drops the last blank (an empty
+    result stays empty) -/
+def StringFromBinary (value : Bytes) (n : Nat) : Bytes := (binaryLoop value n).dropLast
+
+/-- `StringFromBinaryWithSize(value, size)` for a non-NULL buffer: `"Size = %u | HexContents = "` with the size
+    converted to `unsigned`, at most 128 bytes shown, `" ..."` when more -/
+def StringFromBinaryWithSize (value : Bytes) (size : BitVec 64) : Bytes :=
+  ascii "Size = " ++ decNat (size.setWidth 32).toNat ++ ascii " | HexContents = " ++
+    StringFromBinary value (if size.toNat > 128 then 128 else size.toNat) ++
+    (if size.toNat > 128 then ascii " ..." else [])
+
+/-- buffers in `MVal` are never NULL (the harness never passes NULL with `setMemoryBuffer`) -/
+def StringFromBinaryWithSizeOrNull (value : Bytes) (size : BitVec 64) : Bytes := StringFromBinaryWithSize value size
+
+/-- the platform predicates as the class model `D` assumes them: `classify` = isnan / isinf of the double itself,
+    `floatClose` uses the C library's fabs (same text as C03's expectedPlatformPredicates) -/
+def modelledPlatformPredicates : List (String × String) :=
+  [ ("IsNanImplementation", "returnisnan(d);"),
+    ("IsInfImplementation", "returnisinf(d);"),
+    ("PlatformSpecificFabs", "fabs"),
+    ("PlatformSpecificIsNan", "IsNanImplementation"),
+    ("PlatformSpecificIsInf", "IsInfImplementation") ]
 
 end Mock
